@@ -838,6 +838,89 @@ def rule_bound_live(db, chk, cfg, e2eng_factory, rule="LOOP.bound-live"):
     return n
 
 
+class _OwnerPaths(Client):
+    """Disjunctive state: set of (hot, tree, written).  hot: what is known about the edge GetPrevHotEdge returned ('?', 'none', 'some');
+    tree: what is known about using_polytree_ ('?', True, False); written: the ring's owner has been assigned on this path."""
+
+    def __init__(self, db, f):
+        self.db, self.f = db, f
+        self.var = None              # decl id of the local holding GetPrevHotEdge's result
+        self.bad = []
+
+    def join(self, a, b):
+        return a | b
+
+    def _one(self, node, x):
+        hot, tree, written = x
+        for y in walk(node):
+            if y.get("kind") == "VarDecl":
+                init = [c for c in kids(y) if isinstance(c, dict) and c.get("kind")]
+                if init and any(z.get("kind") == "CallExpr" and self.db.callee(z)[0] == "GetPrevHotEdge" for z in walk(init[-1])):
+                    self.var = y.get("id")
+                    hot = "?"
+            if y.get("kind") in ("CallExpr", "CXXMemberCallExpr") and self.db.callee(y)[0] == "SetOwner":
+                written = True
+            if y.get("kind") == "BinaryOperator" and y.get("opcode") == "=":
+                l = _u(kids(y)[0])
+                if l.get("kind") == "MemberExpr" and l.get("name") == "owner":
+                    written = True
+        return (hot, tree, written)
+
+    def stmt(self, node, st):
+        return frozenset(self._one(node, x) for x in st)
+
+    def cond_atom(self, e, st):
+        e0 = _u(e)
+        T, F = set(), set()
+        for x in st:
+            hot, tree, written = self._one(e, x)
+            t = f = (hot, tree, written)
+            if e0.get("kind") == "DeclRefExpr" and self.var is not None and e0.get("referencedDecl", {}).get("id") == self.var:
+                t, f = ("some", tree, written), ("none", tree, written)
+            elif e0.get("kind") == "MemberExpr" and e0.get("name") == "using_polytree_":
+                t, f = (hot, True, written), (hot, False, written)
+            T.add(t)
+            F.add(f)
+        return frozenset(T), frozenset(F)
+
+    def _end(self, st, node):
+        for hot, tree, written in st:
+            if self.var is not None and hot == "none" and tree is not False and not written:
+                self.bad.append(node)
+
+    def on_return(self, node, st):
+        self._end(st, node)
+
+    def on_exit(self, st):
+        self._end(st, None)
+
+
+def rule_owner_assigned(db, chk, cfg, rule="OWNER.assigned"):
+    """Where the engine looks for the nearest hot edge to the left of a ring (GetPrevHotEdge) to record a tentative owner for the tree,
+    both outcomes assign the owner: SetOwner(ring, that edge's ring) when there is one, `owner = nullptr` when there is none - a ring
+    closed with nothing on its left is a top-level candidate, and the owner it was given at its local minimum must not survive.  Path
+    analysis of every function that calls GetPrevHotEdge: no path with 'no hot edge' and tree output possible ends without an owner
+    assignment."""
+    n = 0
+    for f in db.funcs:
+        if f.is_pattern or f.body is None or f.cls != "ClipperBase":
+            continue
+        if not any(y.get("kind") == "CallExpr" and db.callee(y)[0] == "GetPrevHotEdge" for y in walk(f.body)):
+            continue
+        cl = _OwnerPaths(db, f)
+        Walker(cl).function(f.body, frozenset([("?", "?", False)]))
+        n += 1
+        ok = not cl.bad
+        chk.instance(rule, {"function": f.qual, "obligation": "no path with GetPrevHotEdge() == null (tree output possible) ends without assigning the ring's owner", "cfg": cfg}, ok=ok)
+        if not ok:
+            chk.violation(rule, f.qual, "owner", "%s: on the path where GetPrevHotEdge finds no hot edge (and tree output may be requested) the ring's owner is not assigned - "
+                          "it keeps whatever owner it was given before, and RecursiveCheckOwners may accept that stale owner" % f.qual,
+                          where(cl.bad[0]) if cl.bad[0] is not None else f.where, cfg=cfg)
+    if n < 2:
+        raise AnalysisBroken("OWNER.assigned: only %d functions calling GetPrevHotEdge found" % n)
+    return n
+
+
 # ---------------------------------------------------------------------------
 # OPEN.flag: the builders are told the truth about open / closed (C05, C03)
 # ---------------------------------------------------------------------------
